@@ -75,6 +75,12 @@ def bnEval : Nat → TEnv → AST → Option TVal
               | _, _ => none)
            | _ => none)
         else if encodeNumber n = [4, 3] then some (.list (args.map (fun a => (a, ρ))))
+        else if encodeNumber n = [7, 2] then
+          (match args with
+           | [a] => (match bnEval fuel ρ a with
+              | some (.list elems) => some (.int elems.length)
+              | _ => none)
+           | _ => none)
         else none
       | none =>
         match bnEval fuel ρ f with
